@@ -19,7 +19,8 @@ def opaque(units):
     """same units, bodies dropped: their contracts are proved in the group that owns them"""
     out = []
     for kind, u in units:
-        if kind == "unit" and u.get("contract") is not None and not u.get("keep_body"):
+        is_code = kind == "unit" and (u.get("fn") or "impl" in u["path"][-1] or "fn" in u["path"][-1])
+        if is_code and not u.get("keep_body"):
             out.append((kind, dict(u, opaque=True, no_canary=True, loops={}, loop_body_start={}, after_loop={}, inserts=[], body_start=None)))
         else:
             out.append((kind, u))
@@ -223,9 +224,7 @@ AMOUNT = [
     U("Amount::round", AM, [r"impl<'ctx> Amount<'ctx>", r"pub fn round\b"], fn="round", wrap=IMPL_AM, opaque=True,
       rewrites=[RET("-> Self", "-> (r: Self)")],
       contract="""
-        ensures
-            r@.dom() == self@.dom(),
-            forall|c: Commodity| self@.contains_key(c) ==> #[trigger] r@[c] == ctx_round(ctx, c, self@[c]),   // (ASSUMED, L1: HashMap::iter_mut)
+        ensures r@ == rounded(ctx, self@),   // (ASSUMED, L1: HashMap::iter_mut) every commodity rounded to its declared precision, none added or dropped
 """),
     U("Amount::negate", AM, [r"impl<'ctx> Amount<'ctx>", r"pub fn negate\b"], fn="negate", wrap=IMPL_AM, opaque=True,
       rewrites=[RET("-> Self", "-> (r: Self)")],
